@@ -269,6 +269,59 @@ func TestC20(t *testing.T) {
 				}
 			}
 		}
+		if rapid.IntRange(0, 3).Draw(t, "written") == 0 {
+			// the files as the command writes them (Generate), into a directory that holds the
+			// output of an earlier run with other options: what is left there afterwards is what a
+			// run into an empty directory gives
+			dir, err := os.MkdirTemp("", "c20-generate-")
+			if err != nil {
+				t.Fatalf("temp dir: %v", err)
+			}
+			defer os.RemoveAll(dir)
+			var names []string
+			for n := range schema.Tables {
+				names = append(names, n)
+			}
+			sort.Strings(names)
+			prevExt, prevEnums := ext, enumTypes
+			switch rapid.IntRange(0, 3).Draw(t, "earlierrun") {
+			case 0:
+				prevExt = !ext
+			case 1:
+				prevEnums = !enumTypes
+			case 2:
+				prevExt, prevEnums = !ext, !enumTypes
+			}
+			for pass, o := range [][2]bool{{prevExt, prevEnums}, {ext, enumTypes}, {ext, enumTypes}} {
+				for _, name := range names {
+					table := schema.Tables[name]
+					args := modelgen.GetTableTemplateData(pkg, name, &table)
+					args.WithExtendedGen(o[0])
+					args.WithEnumTypes(o[1])
+					if err := gen.Generate(filepath.Join(dir, modelgen.FileName(name)), modelgen.NewTableTemplate(), args); err != nil {
+						kase.Table = name
+						fail("generate.error", "table %s: Generate (run %d into the same directory) fails: %v", name, pass+1, err)
+					}
+				}
+				if err := gen.Generate(filepath.Join(dir, "model.go"), modelgen.NewDBTemplate(), modelgen.GetDBTemplateData(pkg, schema)); err != nil {
+					fail("generate.error", "model.go: Generate (run %d into the same directory) fails: %v", pass+1, err)
+				}
+				if pass == 0 {
+					continue
+				}
+				for name, want := range first {
+					got, err := os.ReadFile(filepath.Join(dir, name))
+					if err != nil {
+						fail("generate.written-files", "%s is not there after run %d into the directory: %v", name, pass+1, err)
+					}
+					if !bytes.Equal(got, want) {
+						kase.Source = string(got)
+						fail("generate.written-files", "%s, written over the output of an earlier run (extended %v, enum types %v), differs from the file a fresh run gives (%d bytes, %d expected)", name, prevExt, prevEnums, len(got), len(want))
+					}
+				}
+			}
+			kit.Label("C20", "written-over-earlier-output")
+		}
 		if len(first) != len(schema.Tables)+1 {
 			fail("generate.filenames", "%d tables produce %d distinct files (file names collide)", len(schema.Tables), len(first)-1)
 		}
